@@ -19,6 +19,8 @@ RULE = ('programs = hand-written corpus (calls, recursion, exceptions, generator
         'module, same-lines-other-name module); tracepoint sets = all singles and all pairs (thorough: triples on 4 programs) '
         'over every executable line + beyond-EOF line + every function + absent function, incl. same-location pairs; a case is '
         'non-trivial when at least one tracepoint fires AND at least one program event of another kind/line does not')
+RULE_ADDED = 'rounds 3-5: method tracepoints by line on every line against a syntax-tree reference (compiler-removed lines excluded); late configuration by a NEW agent started from inside the running function'
+RULE = RULE + ' ; ' + RULE_ADDED
 ASSUMPTIONS = ["a function is entered once per invocation: the 'call' events CPython delivers when a generator or coroutine is resumed are not entries",
                'a method tracepoint given by a line of code the compiler has removed (statements after the return at the end of a function) is a don\'t-care',
                'file identity is the basename (as the statement says: a source file with that name)']
